@@ -16,3 +16,12 @@ proof fn lemma_new_sem(st: EncoderState, iov: &OwningIovec, b0: Seq<u8>, z: Seq<
 {
     assert(Seq::<u8>::empty() + z =~= z);
 }
+
+// Decoder wrapper: what one decode call promises, against the format automaton with production limits.
+spec fn wdecode_post(s0: DecoderState, input: Seq<u8>, b0: Seq<u8>, b1: Seq<u8>, s1: DecoderState, ret: Result<(), DecodingError>) -> bool {
+    let (s, out) = drun(dview(s0), input, 252, 64008);
+    match ret {
+        Ok(_) => !(s is Fail) && dview(s1) == s && b1 == b0 + out,
+        Err(_) => s is Fail,
+    }
+}
